@@ -15,6 +15,19 @@ PREFER = {5: ("Prefer, this time, changes of these kinds: (a) an operation appli
               "topologies, file vs string entry points, the plural vs the singular setter). Avoid plain caches/memoisation and in-place "
               "sorting (already well covered). Note: the library has received many bug fixes recently; base your work on the code as it "
               "is in your worktree now.")}
+PREFER[6] = ("Prefer, this time, changes of these kinds: (a) ERROR PATHS: what an operation leaves behind when it raises part-way, an "
+             "exception of one kind caught as another, a refusal that is silently turned into a no-op (or the reverse), cleanup that runs "
+             "on the wrong branch; (b) TYPE CONFUSION that Python tolerates: an enum member vs its string value, int vs numeric string ids, "
+             "bool vs int, tuple vs list, bytes vs str, a dict view vs a list, `is` vs `==`, truthiness of 0 / '' / [] / {} used where "
+             "`is None` is meant; (c) DEFAULTS AND OPTIONAL PARAMETERS: a default value changed or evaluated once, an optional argument "
+             "that is ignored on one of two code paths, keyword-only arguments forwarded under the wrong name; (d) ORDER: reliance on the "
+             "first/last element, sorted vs insertion order, sets iterated where order matters, stable vs unstable sorting, reversed "
+             "comparison in one of two symmetric branches; (e) TEXT: names, ids and values with unusual but legal characters (unicode, "
+             "quotes, separators the code itself uses such as '-', ':' or ','), very long or empty strings, leading zeros, case "
+             "differences. Avoid caches/memoisation, in-place sorting, identifier allocation from the collection size and stale handles "
+             "(already well covered). Note: the library has received many bug fixes recently; base your work on the code as it is in your "
+             "worktree now. Run the stable test command WITHOUT the `-x` flag (the always-failing network test testLocation would "
+             "otherwise stop the run before the remaining files).")
 os.makedirs(out, exist_ok=True)
 for pid in ids:
     base = open('/verif/seeded/_prompts/%s_r4.txt' % pid).read() if os.path.exists('/verif/seeded/_prompts/%s_r4.txt' % pid) else None
